@@ -14,6 +14,7 @@ import (
 	"context"
 	"encoding/json"
 	"fmt"
+	"hash/fnv"
 	"net"
 	"os"
 	"runtime/debug"
@@ -104,6 +105,7 @@ type memoEntry struct {
 	err  error
 }
 type memoTransport struct {
+	mutSeed uint64 // != 0: the service's answers are perturbed (see mutateMsg)
 	inner  grpcds.RPCTransport
 	mu     sync.Mutex
 	memo   map[string]*memoEntry
@@ -136,6 +138,11 @@ func (t *memoTransport) Invoke(ctx context.Context, method string, in, out proto
 	}
 	err = t.inner.Invoke(ctx, method, in, out)
 	ne := &memoEntry{err: err}
+	if err == nil && t.mutSeed != 0 {
+		h := fnv.New64a()
+		h.Write([]byte(key))
+		mutateMsg(out, common.NewRand(t.mutSeed^h.Sum64()), 0)
+	}
 	if err == nil {
 		ne.wire, err = proto.MarshalOptions{Deterministic: true}.Marshal(out.Interface())
 		if err != nil {
@@ -170,6 +177,41 @@ func (t *memoTransport) idOf(method string, in protoref.Message) int {
 		return e.id
 	}
 	return -1
+}
+
+// mutateMsg perturbs an answer of the service in ways a real service could answer: message fields
+// left unset (also the set member of a oneof, also list wrappers), lists cut short, enum numbers the
+// schema does not declare.  This is the "malformed" stream: it drives the builder's null / absent /
+// default / error branches; such groups are checked for model correspondence and consistency only.
+func mutateMsg(m protoref.Message, r *common.Rand, depth int) {
+	var fds []protoref.FieldDescriptor
+	m.Range(func(fd protoref.FieldDescriptor, _ protoref.Value) bool { fds = append(fds, fd); return true })
+	sort.Slice(fds, func(i, j int) bool { return fds[i].Number() < fds[j].Number() })
+	for _, fd := range fds {
+		switch {
+		case fd.IsMap():
+		case fd.IsList():
+			l := m.Mutable(fd).List()
+			if l.Len() > 0 && r.Chance(1, 6) {
+				l.Truncate(r.Pick(l.Len()))
+			}
+			if fd.Kind() == protoref.MessageKind {
+				for i := 0; i < l.Len(); i++ {
+					mutateMsg(l.Get(i).Message(), r, depth+1)
+				}
+			}
+		case fd.Kind() == protoref.MessageKind:
+			if depth > 0 && r.Chance(1, 8) {
+				m.Clear(fd)
+			} else {
+				mutateMsg(m.Mutable(fd).Message(), r, depth+1)
+			}
+		case fd.Kind() == protoref.EnumKind:
+			if r.Chance(1, 8) {
+				m.Set(fd, protoref.ValueOfEnum(protoref.EnumNumber(4242)))
+			}
+		}
+	}
 }
 
 // ---------------------------------------------------------------- one run
@@ -403,9 +445,13 @@ func jsonString(s string) string {
 // percentage of groups generated with the unrestricted ("wild") profile
 var wildNum = 20
 
+// percentage of groups whose service answers are perturbed
+var mutNum = 15
+
 // ---------------------------------------------------------------- groups
 type Group struct {
-	Ops []*Op `json:"ops"`
+	Ops     []*Op  `json:"ops"`
+	MutSeed uint64 `json:"mut,omitempty"` // != 0: perturb the service's answers with this seed
 }
 
 func (e *Env) enumsSexp() string {
@@ -441,6 +487,12 @@ func newStats() *stats {
 
 func (e *Env) runGroup(g *Gen, grp *Group, st *stats) string {
 	memo := newMemo(grpcds.NewGRPCTransport(e.conn))
+	memo.mutSeed = grp.MutSeed
+	head := "c20"
+	if grp.MutSeed != 0 {
+		head = "c20m"
+		st.modes["perturbed-answers"]++
+	}
 	var runs []string
 	nontrivial := false
 	depth := opDepth(grp.Ops[0].Root)
@@ -476,7 +528,7 @@ func (e *Env) runGroup(g *Gen, grp *Group, st *stats) string {
 		resps = append(resps, common.L(common.I(id), memo.dumps[id]))
 	}
 	ob, _ := json.Marshal(grp)
-	return common.L("c20", common.B(nontrivial), e.enumsSexp(), common.L(resps...), common.L(append([]string{"runs"}, runs...)...),
+	return common.L(head, common.B(nontrivial), e.enumsSexp(), common.L(resps...), common.L(append([]string{"runs"}, runs...)...),
 		common.L("ops", common.Q(ob)))
 }
 
@@ -488,7 +540,11 @@ func (e *Env) genGroup(g *Gen, st *stats) *Group {
 	case x < 6:
 		mode = "entity"
 	}
-	g.Safe = !g.R.Chance(wildNum, 100)
+	mut := uint64(0)
+	if g.R.Chance(mutNum, 100) {
+		mut = g.R.Uint64() | 1
+	}
+	g.Safe = mut != 0 || !g.R.Chance(wildNum, 100)
 	if g.Safe {
 		st.modes["profile-safe"]++
 	} else {
@@ -498,7 +554,7 @@ func (e *Env) genGroup(g *Gen, st *stats) *Group {
 	g.uid, g.varN, g.aliasN, g.fragN = 0, 0, 0, 0
 	base := g.GenOp(mode)
 	base.Label = "base"
-	grp := &Group{Ops: []*Op{base}}
+	grp := &Group{Ops: []*Op{base}, MutSeed: mut}
 	n := 2 + g.R.Pick(2)
 	for i := 0; i < n; i++ {
 		grp.Ops = append(grp.Ops, g.Reformulate(base))
@@ -522,6 +578,7 @@ func main() {
 		out := common.NewOut(args["out"])
 		g := &Gen{S: env.schema, R: common.NewRand(seed)}
 		wildNum = common.ArgInt(args, "wild", wildNum)
+		mutNum = common.ArgInt(args, "mut", mutNum)
 		for i := 0; i < n; i++ {
 			grp := env.genGroup(g, st)
 			out.Line(env.runGroup(g, grp, st))
